@@ -540,7 +540,14 @@ def _(w, e):
     n = need(w, e["on"])
     opts = dict(e.get("opts") or {})
     if "definition_list" in opts:
-        opts["definition_list"] = list(opts["definition_list"])
+        dl = opts["definition_list"]
+        if isinstance(dl, dict):
+            # {"pick": seed, "k": n}: a seeded choice among the names present when the call is made
+            import random as _random
+            names = sorted(d.name for lib in n.libraries for d in lib.definitions if d.name is not None)
+            rr = _random.Random(dl["pick"])
+            dl = rr.sample(names, min(len(names), dl["k"])) if names else []
+        opts["definition_list"] = list(dl)
     sdn.compose(n, e["path"], **opts)
 
 
